@@ -30,7 +30,7 @@ type C15Sc struct {
 	WrapMw bool `json:"wrap_mw,omitempty"`
 }
 
-var c15Actions = []string{"pr", "pw", "pr,pw", "pw,pr", "pc", "pg", "pw,et", "pw,ps", "y2,pr", "pr,y2,pw,y1,pr", "pw,y3,pr", "y1,pg", "pc,pr", "pw,pc,pr", "ok", "et", "pz", "pw,pz,pr", "pz,pr", "px", "pw,px,pr"}
+var c15Actions = []string{"pr", "pw", "pr,pw", "pw,pr", "pc", "pg", "pw,et", "pw,ps", "y2,pr", "pr,y2,pw,y1,pr", "pw,y3,pr", "y1,pg", "pc,pr", "pw,pc,pr", "ok", "et", "pz", "pw,pz,pr", "pz,pr", "px", "pw,px,pr", "nq", "pw,nq,pr", "nq,pr", "pr,nq,pw"}
 
 func genC15(g *simrt.Tape, tier string) any {
 	sc := &C15Sc{Direct: g.Draw(3) == 0}
@@ -249,7 +249,7 @@ func c15Floor(tier string) []*C15Sc {
 	// optional item elements (non-critical message extension, no batch item id) on the storing, clearing and reading item
 	for mask := 0; mask < 64; mask++ {
 		for _, noid := range []bool{false, true} {
-			items := []ItemSc{{Tok: "pw"}, {Tok: "pr"}, {Tok: "pc"}, {Tok: "pr,pw,pr"}, {Tok: "pz"}, {Tok: "pr,px,pr"}}
+			items := []ItemSc{{Tok: "pw"}, {Tok: "pr,nq,pr"}, {Tok: "pc"}, {Tok: "pr,pw,pr"}, {Tok: "pz"}, {Tok: "pr,px,pr"}}
 			for i := range items {
 				if mask&(1<<i) != 0 {
 					items[i].Ext = "plain"
